@@ -361,6 +361,12 @@ def run(prog, rep, tier):
     check_truncate(prog, rep)
     check_truncation_error(prog, rep)
     check_svd_theta(prog, rep)
+    if check_value_dropped(prog, rep) < 2:
+        raise AnalysisError('TRUNC-value-dropped: the gauge steps of _qr_theta_Y0 were not found')
+    if check_first_cut(prog, rep) < 1:
+        raise AnalysisError('TRUNC-first-cut: degeneracy mask not found / not determined')
+    if check_scale(prog, rep) < 5:
+        raise AnalysisError('TRUNC-scale: fewer than 5 scale obligations could be evaluated')
     rep.floor('TRUNC-combine', 5)
     rep.floor('TRUNC-mask-shape', 5)
     rep.assumptions += ['numerical statements about spectra are NOT decided']
@@ -369,3 +375,358 @@ def run(prog, rep, tier):
         explanation='Constraint pipeline of truncate() and the renormalisation/projection pairing '
         'of svd_theta/_eig_based_svd/eigh_rho decided structurally on the current source; the '
         'documented priority is read from the docstring of truncate().')
+
+
+# ------------------------------------------------------------------ TRUNC-scale: homogeneity
+class _Deg:
+    """abstract value of a numeric local in svd_theta / eigh_rho:
+    lam = degree under theta -> lam*theta; nu = power of the norm of the kept part (new_norm);
+    p = spectrum power (1 singular values, 2 eigenvalues of rho, 0 scalars)"""
+
+    def __init__(self, lam, nu, p):
+        from fractions import Fraction as F
+        self.v = (F(lam), F(nu), F(p))
+
+    def __eq__(self, o):
+        return isinstance(o, _Deg) and self.v == o.v
+
+    def __repr__(self):
+        return '(scale^%s, kept-norm^%s, spectrum-power %s)' % self.v
+
+    def comb(self, o, sign):
+        return _Deg(*[a + sign * b for a, b in zip(self.v, o.v)])
+
+    def times(self, k):
+        return _Deg(*[a * k for a in self.v])
+
+
+_NEUTRAL = _Deg(0, 0, 0)
+_MASK = 'MASK'
+
+
+def _deg_eval(e, env):
+    """_Deg, _MASK or None (unknown)"""
+    from fractions import Fraction as F
+    if isinstance(e, ast.Constant) and isinstance(e.value, (int, float)):
+        return _NEUTRAL
+    if isinstance(e, ast.Name):
+        return env.get(e.id)
+    if isinstance(e, ast.BinOp):
+        a, b = _deg_eval(e.left, env), _deg_eval(e.right, env)
+        if isinstance(e.op, ast.Pow):
+            if isinstance(a, _Deg) and isinstance(e.right, ast.Constant) and isinstance(
+                    e.right.value, (int, float)):
+                return a.times(F(e.right.value))
+            return None
+        if not isinstance(a, _Deg) or not isinstance(b, _Deg):
+            return None
+        if isinstance(e.op, ast.Mult):
+            return a.comb(b, 1)
+        if isinstance(e.op, ast.Div):
+            return a.comb(b, -1)
+        if isinstance(e.op, (ast.Add, ast.Sub)):
+            return a if a == b else None
+        return None
+    if isinstance(e, ast.Subscript):
+        a = _deg_eval(e.value, env)
+        if not isinstance(a, _Deg):
+            return None
+        if isinstance(e.slice, ast.Name) and env.get(e.slice.id) == _MASK:
+            # the kept part of x ~ arg**p has aggregated scale new_norm**p
+            return _Deg(a.v[0], a.v[1] + a.v[2], a.v[2])
+        return a
+    if isinstance(e, ast.Call):
+        fn = dotted(e.func) or ''
+        if fn in ('np.sqrt', 'numpy.sqrt') and len(e.args) == 1:
+            a = _deg_eval(e.args[0], env)
+            return a.times(F(1, 2)) if isinstance(a, _Deg) else None
+        if fn in ('np.abs', 'abs', 'np.real', 'np.asarray') and len(e.args) == 1:
+            return _deg_eval(e.args[0], env)
+        if fn in ('np.linalg.norm', 'npc.norm', 'np.sum') and e.args:
+            a = _deg_eval(e.args[0], env)
+            return _Deg(a.v[0], a.v[1], 0) if isinstance(a, _Deg) else None
+    return None
+
+
+def check_scale(prog, rep):
+    """TRUNC-scale: dimensional analysis of svd_theta and eigh_rho. truncate() is documented for a
+    normalised spectrum of singular values; the values handed back must be homogeneous in the
+    input: svd_theta returns S of degree 0 (norm 1) and a renormalization of degree 1 times the
+    kept norm, eigh_rho returns eigenvalues of degree 1 whose sum is the original trace."""
+    m = prog.module(TR)
+    specs = {
+        'svd_theta': ('npc.svd', [_Deg(0, 0, 0), _Deg(1, 0, 1), _Deg(0, 0, 0)],
+                      {1: ('S', _Deg(0, 0, 1)), 4: ('renormalization', _Deg(1, 1, 0))}),
+        'eigh_rho': ('npc.eigh', [_Deg(1, 0, 2), _Deg(0, 0, 0)],
+                     {0: ('W', _Deg(1, 0, 2))}),
+    }
+    n = 0
+    for q, (src, outs, wants) in specs.items():
+        f = m.func(q)
+        env = {}
+        seen_truncate = False
+        for st in f.body:
+            if isinstance(st, ast.If):
+                # branches that only warn do not bind numeric locals used later; anything they
+                # do bind becomes unknown
+                for x in ast.walk(st):
+                    if isinstance(x, ast.Name) and isinstance(x.ctx, ast.Store):
+                        env[x.id] = None
+                continue
+            if isinstance(st, ast.AugAssign) and isinstance(st.target, ast.Name):
+                a, b = env.get(st.target.id), _deg_eval(st.value, env)
+                if isinstance(a, _Deg) and isinstance(b, _Deg) and isinstance(
+                        st.op, (ast.Mult, ast.Div)):
+                    env[st.target.id] = a.comb(b, 1 if isinstance(st.op, ast.Mult) else -1)
+                else:
+                    env[st.target.id] = None
+                continue
+            if isinstance(st, ast.Return):
+                elts = st.value.elts if isinstance(st.value, ast.Tuple) else [st.value]
+                for pos, (what, want) in wants.items():
+                    got = _deg_eval(elts[pos], env) if pos < len(elts) else None
+                    if got is None:
+                        rep.note('TRUNC-scale: cannot evaluate the returned `%s` of %s' % (what, q))
+                        continue
+                    n += 1
+                    rep.instance('TRUNC-scale', {'function': q, 'returned': what,
+                                                 'degree': repr(got), 'expected': repr(want)})
+                    if got != want:
+                        rep.violation('TRUNC-scale', m, q, 'return-degree:' + what,
+                                      'the returned `%s` (`%s`) scales as %r where the '
+                                      'documented result scales as %r: the factors of the '
+                                      'renormalization / kept norm do not cancel, the '
+                                      'decomposition does not reproduce the input with the '
+                                      'reported error' % (what, unparse(elts[pos]), got, want),
+                                      st.lineno)
+                continue
+            if not isinstance(st, ast.Assign) or len(st.targets) != 1:
+                continue
+            t, v = st.targets[0], st.value
+            if isinstance(v, ast.Call) and dotted(v.func) == src and isinstance(t, ast.Tuple):
+                for e, d in zip(t.elts, outs):
+                    env[e.id] = d
+                continue
+            if isinstance(v, ast.Call) and call_name(v) == 'truncate' and isinstance(t, ast.Tuple):
+                arg = _deg_eval(v.args[0], env) if v.args else None
+                if arg is not None:
+                    n += 1
+                    rep.instance('TRUNC-scale', {'function': q, 'truncate_argument':
+                                                 unparse(v.args[0]), 'degree': repr(arg)})
+                    if arg != _Deg(0, 0, 1):
+                        rep.violation('TRUNC-scale', m, q, 'truncate-argument',
+                                      'truncate() is given `%s`, which scales as %r; it expects '
+                                      'a normalised spectrum of singular values (scale^0, '
+                                      'spectrum-power 1): trunc_cut / svd_min and the reported '
+                                      'error are relative to norm 1' %
+                                      (unparse(v.args[0]), arg), st.lineno)
+                else:
+                    rep.note('TRUNC-scale: cannot evaluate the argument of truncate() in %s' % q)
+                env[t.elts[0].id] = _MASK
+                env[t.elts[1].id] = _Deg(0, 1, 0)
+                env[t.elts[2].id] = None
+                seen_truncate = True
+                continue
+            if isinstance(t, ast.Name):
+                env[t.id] = _deg_eval(v, env)
+            elif isinstance(t, ast.Subscript):
+                pass        # `W[W < 1e-14] = 0`: the scale of W is unchanged
+        if not seen_truncate:
+            raise AnalysisError('%s: call of truncate() not found' % q)
+    return n
+
+
+# ------------------------------------------------------------------ TRUNC-first-cut
+def _first_elem(e, f, before, positive):
+    """abstract first element of the array expression e: True / False / 'zero' / '+inf' / 'data'
+    / None (unknown). `positive`: names known to be > 0 at this point."""
+    if isinstance(e, ast.Name):
+        val = None
+        for st in stmts_of(f):
+            if st.lineno >= before:
+                break
+            if isinstance(st, ast.Assign) and len(st.targets) == 1:
+                t = st.targets[0]
+                if isinstance(t, ast.Name) and t.id == e.id:
+                    val = _first_elem(st.value, f, st.lineno, positive)
+                elif isinstance(t, ast.Subscript) and isinstance(t.value, ast.Name) and \
+                        t.value.id == e.id:
+                    s = t.slice
+                    if isinstance(s, ast.Constant) and s.value == 0:
+                        val = st.value.value if isinstance(st.value, ast.Constant) else None
+                    elif isinstance(s, ast.Slice) and (s.lower is None or (
+                            isinstance(s.lower, ast.Constant) and s.lower.value == 0)):
+                        val = _first_elem(st.value, f, st.lineno, positive)
+                    elif isinstance(s, ast.Slice):
+                        pass          # X[k:] = .. with k >= 1 (or negative): element 0 untouched
+                    else:
+                        val = None
+        return val
+    if isinstance(e, ast.Compare) and len(e.ops) == 1 and isinstance(e.ops[0], (ast.GtE, ast.Gt)):
+        return _ge(_first_elem(e.left, f, before, positive), e.comparators[0], positive)
+    if isinstance(e, ast.Call):
+        fn = dotted(e.func) or ''
+        if fn in ('np.greater_equal', 'np.greater') and len(e.args) == 2:
+            return _ge(_first_elem(e.args[0], f, before, positive), e.args[1], positive)
+        if fn in ('np.ones', 'np.ones_like'):
+            return True
+        if fn in ('np.zeros', 'np.zeros_like'):
+            return False
+        if fn == 'np.empty':
+            return None
+        if fn == 'np.full' and len(e.args) >= 2 and isinstance(e.args[1], ast.Constant):
+            return e.args[1].value
+        if fn == 'np.diff' and e.args:
+            pre = kwarg(e, 'prepend')
+            if pre is None:
+                return 'data'
+            if unparse(pre) in ('-np.inf', '-numpy.inf', "-float('inf')"):
+                return '+inf'
+            if unparse(pre) == unparse(e.args[0]) + '[0]':
+                return 'zero'
+            return None
+        if fn in ('np.concatenate', 'np.hstack') and e.args and isinstance(
+                e.args[0], (ast.Tuple, ast.List)) and e.args[0].elts:
+            return _first_elem(e.args[0].elts[0], f, before, positive)
+        if fn == 'np.append' and e.args:
+            return _first_elem(e.args[0], f, before, positive)
+        if fn == 'np.insert' and len(e.args) == 3 and isinstance(e.args[1], ast.Constant) and \
+                e.args[1].value == 0 and isinstance(e.args[2], ast.Constant):
+            return e.args[2].value
+    if isinstance(e, (ast.List, ast.Tuple)) and e.elts and isinstance(e.elts[0], ast.Constant):
+        return e.elts[0].value
+    if isinstance(e, ast.Subscript) and isinstance(e.value, ast.Attribute) and \
+            unparse(e.value) == 'np.r_' and isinstance(e.slice, ast.Tuple) and \
+            isinstance(e.slice.elts[0], ast.Constant):
+        return e.slice.elts[0].value
+    if isinstance(e, ast.BinOp) and isinstance(e.op, ast.Sub):
+        return 'data'
+    return None
+
+
+def _ge(first, thr, positive):
+    if first == '+inf':
+        return True
+    if first == 'zero':
+        return False if (isinstance(thr, ast.Name) and thr.id in positive) else None
+    if first == 'data':
+        return 'data'
+    return None
+
+
+def check_first_cut(prog, rep):
+    """TRUNC-first-cut: cut 0 (keep the whole spectrum) has no smaller neighbour, so the
+    degeneracy constraint must always allow it: the first element of its mask is True."""
+    m = prog.module(TR)
+    f = m.func('truncate')
+    n = 0
+    for st in stmts_of(f):
+        if not (isinstance(st, ast.Assign) and isinstance(st.value, ast.Call) and
+                call_name(st.value) == '_combine_constraints' and len(st.value.args) == 3 and
+                isinstance(st.value.args[2], ast.Constant) and
+                st.value.args[2].value == 'degeneracy_tol'):
+            continue
+        positive = set()
+        for text, pol, e in guards_of(f, st):
+            if pol and isinstance(e, ast.Name):
+                positive.add(e.id)        # `if deg_tol:` -> non-zero (documented as a tolerance)
+        first = _first_elem(st.value.args[1], f, st.lineno, positive)
+        n += 1
+        rep.instance('TRUNC-first-cut', {'mask': unparse(st.value.args[1]), 'first': repr(first)})
+        if first is True:
+            continue
+        if first is None:
+            rep.note('TRUNC-first-cut: first element of the degeneracy mask not determined')
+            n -= 1
+            continue
+        rep.violation('TRUNC-first-cut', m, 'truncate', 'first-cut:' + repr(first),
+                      'the degeneracy mask allows cut 0 (keep everything) only %s: when no '
+                      'other constraint forces a cut, values are discarded although chi_max, '
+                      'svd_min and trunc_cut would keep them' %
+                      ('never (difference with itself >= tolerance is False)' if first is False
+                       else 'depending on the data'), st.lineno)
+    return n
+
+
+# ------------------------------------------------------------------ TRUNC-value-dropped
+def pure_array_methods(prog):
+    """methods of Array that return a new tensor and leave self alone: they have an in-place
+    sibling `i<name>`, or return a local obtained from self.copy(..)"""
+    ct = prog.classtable()
+    A = ct.get('Array')
+    pure = set()
+    for name, f in A.methods.items():
+        if name.startswith('_') or (name.startswith('i') and name[1:] in A.methods):
+            continue
+        rets = [r for r in ast.walk(f) if isinstance(r, ast.Return) and r.value is not None]
+        if not rets or any(unparse(r.value) == 'self' for r in rets):
+            continue
+        copies = {st.targets[0].id for st in stmts_of(f) if isinstance(st, ast.Assign) and
+                  isinstance(st.targets[0], ast.Name) and isinstance(st.value, ast.Call) and
+                  unparse(st.value.func) == 'self.copy'}
+        if ('i' + name) in A.methods or any(
+                isinstance(r.value, ast.Name) and r.value.id in copies for r in rets):
+            pure.add(name)
+    return pure
+
+
+def _array_locals(f):
+    """locals / parameters that hold an Array: annotated so, or derived from one by copy()"""
+    typed = set()
+    a = f.args
+    for x in a.posonlyargs + a.args + a.kwonlyargs:
+        if x.annotation is not None and 'Array' in unparse(x.annotation):
+            typed.add(x.arg)
+    changed = True
+    while changed:
+        changed = False
+        for st in stmts_of(f):
+            if isinstance(st, ast.Assign) and len(st.targets) == 1 and isinstance(
+                    st.targets[0], ast.Name) and st.targets[0].id not in typed:
+                v = st.value
+                if isinstance(v, ast.Call) and isinstance(v.func, ast.Attribute) and isinstance(
+                        v.func.value, ast.Name) and v.func.value.id in typed:
+                    typed.add(st.targets[0].id)
+                    changed = True
+                elif isinstance(v, ast.Call) and (dotted(v.func) or '').startswith('npc.') and \
+                        dotted(v.func) in ('npc.tensordot', 'npc.outer', 'npc.zeros', 'npc.eye_like',
+                                           'npc.diag', 'npc.concatenate'):
+                    typed.add(st.targets[0].id)
+                    changed = True
+    return typed
+
+
+def check_value_dropped(prog, rep):
+    """TRUNC-value-dropped: a statement `X.m(..)` on a tensor X where m returns a NEW tensor (the
+    in-place variant is `im`) computes a value and drops it: the step the code relies on (a gauge,
+    a transposition, a projection) never happens."""
+    m = prog.module(TR)
+    pure = pure_array_methods(prog)
+    if 'gauge_total_charge' not in pure or 'transpose' not in pure:
+        raise AnalysisError('pure Array methods: gauge_total_charge / transpose not derived')
+    n = 0
+    for q, f in m.functions.items():
+        typed = _array_locals(f)
+        for st in stmts_of(f):
+            if isinstance(st, ast.Assign) and isinstance(st.value, ast.Call) and isinstance(
+                    st.value.func, ast.Attribute) and st.value.func.attr in pure and isinstance(
+                        st.value.func.value, ast.Name) and st.value.func.value.id in typed:
+                n += 1
+                rep.instance('TRUNC-value-dropped', {'function': q, 'call': key_text(st)[:70],
+                                                     'result': 'bound'})
+            if not (isinstance(st, ast.Expr) and isinstance(st.value, ast.Call) and isinstance(
+                    st.value.func, ast.Attribute) and st.value.func.attr in pure):
+                continue
+            recv = st.value.func.value
+            if not (isinstance(recv, ast.Name) and recv.id in typed):
+                continue
+            n += 1
+            rep.instance('TRUNC-value-dropped', {'function': q, 'call': key_text(st)[:70],
+                                                 'result': 'dropped'})
+            rep.violation('TRUNC-value-dropped', m, q, 'dropped:%s.%s' % (recv.id,
+                                                                          st.value.func.attr),
+                          '`%s`: Array.%s returns a new tensor and leaves `%s` unchanged; the '
+                          'result is dropped, so the step never takes effect (use the returned '
+                          'tensor or the in-place variant)' %
+                          (unparse(st)[:70], st.value.func.attr, recv.id), st.lineno)
+    return n
